@@ -59,9 +59,17 @@ func c13Project(edges [3]bool, back int) *types.Project {
 
 func VerifC13Traversal() {
 	var edges [3]bool
-	edges[0] = vrtChoice("a-b", 2) == 1
-	edges[1] = vrtChoice("a-c", 2) == 1
-	edges[2] = vrtChoice("b-c", 2) == 1
+	if vrtParam("NOEDGES", 0) == 0 {
+		edges[0] = vrtChoice("a-b", 2) == 1
+		edges[1] = vrtChoice("a-c", 2) == 1
+		edges[2] = vrtChoice("b-c", 2) == 1
+	} else {
+		// at most one edge: enough independent services to reach any limit
+		e := vrtChoice("oneEdge", 4)
+		if e > 0 {
+			edges[e-1] = true
+		}
+	}
 	p := c13Project(edges, 0)
 	if vrtParam("DANGLING", 0) == 1 {
 		c13Dangling(p, vrtChoice("dangling", 4))
@@ -100,7 +108,12 @@ func VerifC13Traversal() {
 	exited := map[string]bool{}
 	running, maxRunning := 0, 0
 	boom := errors.New("boom")
-	err := InDependencyOrder(context.Background(), p, func(ctx context.Context, name string, s types.ServiceConfig) error {
+	// CANCEL=1: the caller's own context is cancelled by the failing visitor just before it fails (a caller giving up
+	// while a visit reports its error): the walk still returns that visitor's error
+	callerCtx, cancel := context.WithCancel(context.Background())
+	defer cancel()
+	callerCancels := vrtParam("CANCEL", 0) == 1
+	err := InDependencyOrder(callerCtx, p, func(ctx context.Context, name string, s types.ServiceConfig) error {
 		vrtLock()
 		entered[name]++
 		running++
@@ -117,6 +130,9 @@ func VerifC13Traversal() {
 		exited[name] = true
 		vrtUnlock()
 		if name == failAt {
+			if callerCancels {
+				cancel()
+			}
 			return boom
 		}
 		return nil
@@ -233,4 +249,73 @@ func VerifC13Cycle() {
 		vrtAssert("acyclic-graph-walked", err == nil && visits == 3)
 	}
 	vrtAssert("project-not-modified", vrtDeepEqual(any(p), any(before)))
+}
+
+// VerifC13Roots4: four services, every acyclic orientation of every subset of the six possible edges (so the
+// alphabetical order of the names is independent of the direction of the edges), one or two roots.
+func VerifC13Roots4() {
+	names := []string{"a", "b", "c", "d"}
+	p := &types.Project{Name: "p", Services: types.Services{}}
+	for _, n := range names {
+		p.Services[n] = types.ServiceConfig{Name: n, Image: "i", DependsOn: types.DependsOnConfig{}}
+	}
+	dependsOn := map[string][]string{}
+	for i := 0; i < 4; i++ {
+		for j := i + 1; j < 4; j++ {
+			var from, to string
+			switch vrtChoice("edge-"+names[i]+names[j], 3) {
+			case 1:
+				from, to = names[i], names[j]
+			case 2:
+				from, to = names[j], names[i]
+			default:
+				continue
+			}
+			s := p.Services[from]
+			s.DependsOn[to] = types.ServiceDependency{Condition: "service_started", Required: true}
+			p.Services[from] = s
+			dependsOn[from] = append(dependsOn[from], to)
+		}
+	}
+	// acyclic graphs only (cycles are VerifC13Cycle's)
+	var reach func(from, to string, depth int) bool
+	reach = func(from, to string, depth int) bool {
+		if depth > 4 {
+			return true
+		}
+		for _, d := range dependsOn[from] {
+			if d == to || reach(d, to, depth+1) {
+				return true
+			}
+		}
+		return false
+	}
+	for _, n := range names {
+		vrtAssume(!reach(n, n, 0))
+	}
+	rootLists := [][]string{{"a"}, {"b"}, {"c"}, {"d"}, {"d", "a"}, {"b", "c"}}
+	roots := rootLists[vrtChoice("roots", len(rootLists))]
+	vrtSetPreemptions(0)
+	visited := map[string]int{}
+	ropts := []func(*Options){WithRootNodesAndDown(roots)}
+	if vrtChoice("reverse", 2) == 1 {
+		ropts = append(ropts, InReverseOrder)
+	}
+	err := InDependencyOrder(context.Background(), p, func(ctx context.Context, name string, s types.ServiceConfig) error {
+		vrtLock()
+		visited[name]++
+		vrtUnlock()
+		return nil
+	}, ropts...)
+	vrtAssert("roots-walk-succeeds", err == nil)
+	for _, n := range names {
+		want := 0
+		for _, root := range roots {
+			if n == root || reach(n, root, 0) {
+				want = 1
+			}
+		}
+		vrtObserve(n, visited[n])
+		vrtAssert("visits-exactly-root-and-dependents", visited[n] == want)
+	}
 }
